@@ -369,6 +369,11 @@ class Outcome:
         self.coverage: dict = {"samples": []}
         self.assumptions: list[str] = []
         self.known = [k for k in load_known_findings() if k.get("status", "open") == "open"]
+        if os.path.isdir(REPLAYS):                      # replay files of earlier runs of this check
+            for f in os.listdir(REPLAYS):
+                if f.startswith(pid + "-"):
+                    with contextlib.suppress(OSError):
+                        os.unlink(os.path.join(REPLAYS, f))
 
     def classify(self, sig: dict) -> dict | None:
         for k in self.known:
